@@ -191,6 +191,16 @@ class Hist:
             key = tuple(int(g.integers(0, d)) for d in shape[:int(g.integers(1, len(shape) + 1))])
             Y = X[key if len(key) > 1 else key[0]]
         elif op == "setitem":
+            if len(self.objs) > 1 and g.random() < 0.35:
+                # assign into an EARLIER object (an original of which the current one may be a copy, a reshape or a flattening, or vice versa):
+                # objects made from one another may share arrays, and none of the others may move
+                older = [o for o in self.objs if o is not X and type(o) is cls and tuple(o.shape)]
+                if older:
+                    T = older[int(g.integers(0, len(older)))]
+                    V = self.make(tuple(T.shape)[1:])
+                    T[int(g.integers(0, T.shape[0]))] = V if g.random() < 0.5 else np.array(V.proj_data)
+                    self.objs.append(V)
+                    return self.check_all(step, "setitem_on_earlier_object")
             if shape:
                 key = tuple(int(g.integers(0, d)) for d in shape[:int(g.integers(1, len(shape) + 1))])
                 vshape = shape[len(key):]
@@ -285,6 +295,9 @@ class Hist:
 
     def query(self, q, step):
         X, g, kind = self.cur, self.g, self.kind
+        if len(self.objs) > 1 and g.random() < 0.25:
+            same = [o for o in self.objs if type(o) is type(self.cur) and not np.iscomplexobj(o.proj_data)]
+            X = same[int(g.integers(0, len(same)))]          # query an earlier object: the current one (maybe its copy) must not move either
         snap = self.snapshot()
         extra = []
         with warnings.catch_warnings():
@@ -770,7 +783,7 @@ def clauses():
                     "after every step composite shape, proj_data and aux_data of the implementation vs the Lean state machine Obj.step / Obj.afterQuery executed over Q "
                     "(data chosen so that every square root the library takes is rational; segments with interior/ideal endpoints in every combination and representatives of either sign)"),
         Clause("history_oracle", "oracle", gen_hist, run_hist, judge_hist, site="projective.ProjectiveObject (set/copy/apply/reshape/flatten/__getitem__/__setitem__/stack/combine/astype) + queries",
-               budget={"quick": 540, "thorough": 30000},
+               budget={"quick": 400, "thorough": 30000},
                what="histories over {copy, apply, reshape, flatten, index, set item, stack, combine, astype} on polygons, segments, tangent vectors of shapes (), (2,), (2,3) "
                     "interleaved with read-only queries (random depth <= 8 in quick; in thorough EVERY history of depth <= 4 over {apply, reshape, flatten, index, set item, stack, combine} "
                     "with copy/astype inserted at random): "
